@@ -267,6 +267,21 @@ class System:
                 exp_sends = [(a, b, c2, d, 0 if e == '0!' else e) for a, b, c2, d, e in exp_sends]
                 if sent != exp_sends:
                     errs.append('%s: MacroStep.sent_events %s, expected %s' % (x, sent, exp_sends))
+        if not errs:
+            for x in self.names:
+                itx, n = its[x], ref.nodes[x]
+                if hasattr(itx, '_internal_queue') and hasattr(itx, '_external_queue'):
+                    try:
+                        gi = [(t, e.name, e.data.get('s')) for t, e in itx._internal_queue]
+                        ge = [(t, e.name, e.data.get('s')) for t, e in itx._external_queue]
+                    except Exception:
+                        continue
+                    wi = [(due, name, s_) for due, _, name, s_, _ in n.internal]
+                    we = [(due, name, s_) for due, _, name, s_, _ in n.external]
+                    if gi != wi or ge != we:
+                        errs.append('%s: queues hold internal %s / external %s, the reference mailboxes hold %s / %s'
+                                    % (x, gi, ge, wi, we))
+                        break
         if list(CALLS) != ref.calls:
             i = next((j for j, (a, b) in enumerate(zip(CALLS, ref.calls)) if a != b), min(len(CALLS), len(ref.calls)))
             errs.append('callables received %s, expected %s (first difference at delivery %d)'
